@@ -52,7 +52,8 @@ type obs struct {
 	replayDetail     string
 	immutableChanged []string
 	unsupplied       []string
-	aliased          bool // two submitted keys are equal up to surrounding white space and letter case
+	unreadable       []string // accepted global settings whose value the code's own accessor does not return (it falls back to the local yaml)
+	aliased          bool     // two submitted keys are equal up to surrounding white space and letter case
 }
 
 func (o *obs) sigTag() string {
@@ -222,6 +223,7 @@ func (x *world) runUpdate(kind string, c *contract, tag, fn, caller string, kvs 
 			}
 		}
 		if kind == "updateg" {
+			o.unreadable = x.unreadable(kvs)
 			_, gAfter := globalsOf(st)
 			mut := map[string]bool{}
 			for _, e := range table().Globals {
@@ -275,6 +277,54 @@ func (x *world) runUpdate(kind string, c *contract, tag, fn, caller string, kvs 
 	return "err other " + esc(detail)
 }
 
+var viperMu sync.Mutex
+
+// unreadable: "only valid values" for update_globals — every accepted value must be what the code's accessor for that setting
+// returns, whatever the node-local configuration says. The accessor is evaluated under two different local yaml values; if its
+// answer follows the local value, the stored one is not readable (silent fallback in GlobalSettings.GetXxx).
+func (x *world) unreadable(kvs []kv) []string {
+	ver, fields := globalsOf(x.w.State)
+	gl := &minersc.GlobalSettings{Version: ver, Fields: fields}
+	var res []string
+	for _, p := range kvs {
+		idx, ok := globalIndex(p.k)
+		ct := ""
+		for _, r := range table().Readers {
+			if r.Name == p.k {
+				ct = r.CT
+			}
+		}
+		if !ok || ct == "" || ct == "string" || ct == "strings" {
+			continue // not read from the state, or read as the raw string
+		}
+		a, b := localProbes(ct)
+		viperMu.Lock()
+		old := viper.Get(p.k)
+		viper.Set(p.k, a)
+		ra := readAs(gl, idx, ct)
+		viper.Set(p.k, b)
+		rb := readAs(gl, idx, ct)
+		viper.Set(p.k, old)
+		viperMu.Unlock()
+		if ra != rb {
+			res = append(res, fmt.Sprintf("%s stored=%q read-as=%s local=%v->%s local=%v->%s", p.k, fields[p.k], ct, a, ra, b, rb))
+		}
+	}
+	return res
+}
+
+func localProbes(ct string) (interface{}, interface{}) {
+	switch ct {
+	case "boolean":
+		return true, false
+	case "duration":
+		return "11s", "22s"
+	case "float64":
+		return 0.11, 0.22
+	}
+	return 11, 22
+}
+
 func globalIndex(name string) (config.GlobalSetting, bool) {
 	for i, n := range config.GlobalSettingName {
 		if n == name && i < int(config.NumOfGlobalSettings) {
@@ -291,12 +341,27 @@ func (x *world) inforce(name string) string {
 	if !ok {
 		return "inforce-unknown"
 	}
-	ct := ""
-	for _, e := range table().Globals {
-		if e.Name == name {
-			ct = e.CT
+	ct := readerCT(name)
+	return readAs(gl, idx, ct)
+}
+
+// readerCT: the type of the accessor through which the code reads the setting (chain.ConfigImpl.Update / config.DbSettings.Update,
+// extracted by xc48); the declared type for settings nobody reads from the state.
+func readerCT(name string) string {
+	for _, r := range table().Readers {
+		if r.Name == name {
+			return r.CT
 		}
 	}
+	for _, e := range table().Globals {
+		if e.Name == name {
+			return e.CT
+		}
+	}
+	return ""
+}
+
+func readAs(gl *minersc.GlobalSettings, idx config.GlobalSetting, ct string) string {
 	switch ct {
 	case "int":
 		v, _ := gl.GetInt(idx)
@@ -476,7 +541,9 @@ func impl(ops []string) []string {
 				outs[i] = "bad-op"
 				break
 			}
+			viperMu.Lock()
 			outs[i] = x.inforce(name)
+			viperMu.Unlock()
 		default:
 			outs[i] = "bad-op"
 		}
@@ -504,6 +571,8 @@ func oracle(ops, outs []string) *corr.Violation {
 			return mk("rejected-call-changed-state", fmt.Sprintf("%q was rejected (%s), yet %d contract nodes changed", o.op, o.class, o.leavesChanged))
 		case len(o.immutableChanged) > 0:
 			return mk("immutable-global-changed", fmt.Sprintf("%q changed global settings marked immutable: %v", o.op, o.immutableChanged))
+		case len(o.unreadable) > 0:
+			return mk("accepted-value-unreadable:"+strings.SplitN(o.unreadable[0], " ", 2)[0], fmt.Sprintf("%q was accepted, but the accessor the code reads the setting with does not return the stored value — it returns the node-local yaml value: %v", o.op, o.unreadable))
 		case len(o.unsupplied) > 0:
 			return mk("unsupplied-setting-changed", fmt.Sprintf("%q changed settings that were not in the submitted map: %v", o.op, o.unsupplied))
 		case o.replayDiff == "root" || o.replayDiff == "output" && o.status == transaction.TxnSuccess:
@@ -560,8 +629,10 @@ func genValue(r *rand.Rand, kind string) string {
 		if bad {
 			return pick(r, "x", "", "1.5", "0x10", "9223372036854775808", "-", "1_0", "--1", " 5", "2147483648", "-9223372036854775809")
 		}
-		if r.Intn(6) == 0 {
-			return pick(r, "2147483647", "9223372036854775807", "+4", "007", "-9223372036854775808", "4294967296", "1000000")
+		if r.Intn(3) == 0 {
+			// boundaries of every narrower integer type, and spellings only some parsers accept
+			return pick(r, "2147483647", "2147483648", "3000000000", "4294967295", "4294967296", "9007199254740993", "9223372036854775807", "9223372036854775808",
+				"-2147483648", "-2147483649", "-9223372036854775808", "+4", "007", "1e3", "0x10", " 5", "5 ", "1000000")
 		}
 		return smallInts[r.Intn(len(smallInts))]
 	case "coin", "rawcoin", "mult":
@@ -834,6 +905,12 @@ func fixed() [][]string {
 		append(pre(false), "taint faucet "+o+" cost.pour=5 pour_amount=x max_pour_amount=y periodic_limit=z"),
 		append(pre(false), "taint vesting "+o+" cost.add=5 max_destinations=7 max_description_length=9 min_duration=1s"),
 		append(pre(false), "update faucet "+o+" cost.pour=5", "update vesting "+o+" cost.STOP=7", "dump faucet", "dump vesting"),
+		// integer settings at the boundaries of the narrower types: accepted values must be readable by the accessor the code uses
+		append(pre(false), "updateg "+o+" server_chain.block.max_block_size=3000000000", "dumpg", "inforce server_chain.block.max_block_size "+escOrEmpty(viperRaw("server_chain.block.max_block_size", "int32")),
+			"updateg "+o+" server_chain.block.min_block_size=2147483648", "updateg "+o+" server_chain.block.min_block_size=2147483647", "inforce server_chain.block.min_block_size "+escOrEmpty(viperRaw("server_chain.block.min_block_size", "int32")),
+			"updateg "+o+" server_chain.block.max_block_cost=3000000000", "inforce server_chain.block.max_block_cost "+escOrEmpty(viperRaw("server_chain.block.max_block_cost", "int")),
+			"updateg "+o+" server_chain.block.max_byte_size=9223372036854775807", "inforce server_chain.block.max_byte_size "+escOrEmpty(viperRaw("server_chain.block.max_byte_size", "int64")),
+			"updateg "+o+" server_chain.dbs.settings.aggregate_period=9223372036854775808", "updateg "+o+" server_chain.round_range=1e3", "dumpg"),
 		// immutable and unparsable globals
 		append(pre(false), "updateg "+o+" server_chain.owner=x", "updateg "+o+" server_chain.block.max_block_size=q", "updateg "+o+" server_chain.block.max_block_size=2147483648",
 			"updateg "+o+" server_chain.block.max_block_size=2147483647 server_chain.transaction.exempt=a,b", "dumpg", "inforce server_chain.block.max_block_size "+escOrEmpty(viperRaw("server_chain.block.max_block_size", "int32")), "inforce server_chain.transaction.exempt "+escOrEmpty(viperRaw("server_chain.transaction.exempt", "strings"))),
